@@ -466,6 +466,7 @@ class HistoryModel:
         elif k == "snapshot":
             ex = Expect("snapshot")
             ex.inst = op["inst"]
+            ex.note = op.get("same_as") or ""
             self.expect[key] = ex
         elif k == "cprio":
             ex = Expect("cprio")
